@@ -556,7 +556,7 @@ impl<'a, D: Dialect> RunProgramContext<'a, D> {
                 Some(f) => f,
                 None => break,
             };
-            cost += match op {
+            let op_cost = match op {
                 Operation::Apply => self.apply_op(cost, effective_max_cost - cost)?,
                 Operation::ExitGuard => self.exit_guard(cost)?,
                 Operation::Cons => self.cons_op()?,
@@ -592,6 +592,9 @@ impl<'a, D: Dialect> RunProgramContext<'a, D> {
                     0
                 }
             };
+            // an operator may return a cost that exceeds the remaining budget; adding it must
+            // not wrap around (max_cost can be as large as Cost::MAX)
+            cost = cost.checked_add(op_cost).ok_or(EvalErr::CostExceeded)?;
         }
         self.allocator.clear_validation_caches();
         Ok(Reduction(cost, self.pop()?))
